@@ -42,6 +42,108 @@ func connParam(fn *ssa.Function) *ssa.Parameter {
 	return nil
 }
 
+// connCarrierType: a small record (or a pointer to one) that holds exactly one net.Conn (replyWriter{conn}).
+func connCarrierType(t types.Type) (int, bool) {
+	if pt, ok := t.Underlying().(*types.Pointer); ok {
+		t = pt.Elem()
+	}
+	st, ok := t.Underlying().(*types.Struct)
+	if !ok {
+		return 0, false
+	}
+	idx, n := -1, 0
+	for i := 0; i < st.NumFields(); i++ {
+		if isNetConn(st.Field(i).Type()) {
+			idx = i
+			n++
+		}
+	}
+	return idx, n == 1 && st.NumFields() <= 4
+}
+
+// connBearer: the parameter through which a server-side helper gets the client connection: a net.Conn, or a record
+// that carries one.
+func connBearer(fn *ssa.Function) *ssa.Parameter {
+	if p := connParam(fn); p != nil {
+		return p
+	}
+	if fn.Pkg == nil || !strings.HasSuffix(fn.Pkg.Pkg.Path(), "/server") {
+		return nil
+	}
+	for _, p := range fn.Params {
+		if _, ok := connCarrierType(p.Type()); ok {
+			return p
+		}
+	}
+	return nil
+}
+
+// sameValueOrCopy: v is p, or a load of a local cell that only ever held p.
+func sameValueOrCopy(v, p ssa.Value) bool {
+	if v == p {
+		return true
+	}
+	if u, ok := v.(*ssa.UnOp); ok && u.Op == token.MUL {
+		if al, ok := u.X.(*ssa.Alloc); ok {
+			return singleStore(al) == p
+		}
+	}
+	return false
+}
+
+// connOf: v is the connection that bearer p stands for: p itself (a net.Conn, possibly through its cell), or the
+// connection field of the carrier record p.
+func connOf(v, p ssa.Value) bool {
+	if sameValueOrCopy(v, p) {
+		return true
+	}
+	switch x := v.(type) {
+	case *ssa.Field:
+		return sameValueOrCopy(x.X, p)
+	case *ssa.UnOp:
+		if fa, ok := x.X.(*ssa.FieldAddr); ok && x.Op == token.MUL {
+			if fa.X == p {
+				return true
+			}
+			if al, ok := fa.X.(*ssa.Alloc); ok {
+				return singleStore(al) == p
+			}
+		}
+	}
+	return false
+}
+
+// carriesConn: a is a carrier record (value or pointer) local to the function whose connection field was filled with conn.
+func carriesConn(a ssa.Value, conn ssa.Value) bool {
+	var al *ssa.Alloc
+	switch x := a.(type) {
+	case *ssa.Alloc:
+		al = x
+	case *ssa.UnOp:
+		if x.Op == token.MUL {
+			al, _ = x.X.(*ssa.Alloc)
+		}
+	}
+	if al == nil || al.Referrers() == nil {
+		return false
+	}
+	if _, ok := connCarrierType(al.Type().Underlying().(*types.Pointer).Elem()); !ok {
+		return false
+	}
+	for _, r := range *al.Referrers() {
+		fa, ok := r.(*ssa.FieldAddr)
+		if !ok || fa.Referrers() == nil || !isNetConn(fa.Type().Underlying().(*types.Pointer).Elem()) {
+			continue
+		}
+		for _, rr := range *fa.Referrers() {
+			if st, ok := rr.(*ssa.Store); ok && st.Addr == ssa.Value(fa) && sameValueOrCopy(st.Val, conn) {
+				return true
+			}
+		}
+	}
+	return false
+}
+
 // isConnWrite: invoke of Write on the given connection value (directly or through its captured cell).
 func isConnWrite(in ssa.Instruction, conn ssa.Value) bool {
 	ci, ok := in.(ssa.CallInstruction)
@@ -55,24 +157,13 @@ func isConnWrite(in ssa.Instruction, conn ssa.Value) bool {
 	if conn == nil {
 		return true
 	}
-	v := cc.Value
-	if v == conn {
-		return true
-	}
-	if u, ok := v.(*ssa.UnOp); ok {
-		if al, ok := u.X.(*ssa.Alloc); ok {
-			if sv := singleStore(al); sv == conn {
-				return true
-			}
-		}
-	}
-	return false
+	return connOf(cc.Value, conn)
 }
 
 // connWriteSummary: for a first-party helper with a net.Conn parameter, the set of possible numbers of Write calls on
 // that parameter over all paths ("1" = exactly once on every path). Helpers are analysed with the same counting flow.
 func (c *C) connWriteSummary(fn *ssa.Function, depth int) (Set, *ssa.Parameter) {
-	p := connParam(fn)
+	p := connBearer(fn)
 	if p == nil || fn.Blocks == nil || depth > 3 {
 		return nil, nil
 	}
@@ -97,7 +188,7 @@ func (c *C) connWriteSummary(fn *ssa.Function, depth int) (Set, *ssa.Parameter) 
 			if cf := callee(ci); cf != nil && firstParty(cf) && pkgRel(cf) == "server" {
 				if sum, cp := c.connWriteSummary(cf, depth+1); sum != nil {
 					for i, a := range ci.Call.Args {
-						if a == ssa.Value(p) && cf.Params[i] == cp {
+						if sameValueOrCopy(a, p) && i < len(cf.Params) && cf.Params[i] == cp {
 							// conservative: only the exactly-once helper is composed
 							if len(sum) == 1 && sum["1"] {
 								add(1)
@@ -165,7 +256,9 @@ var rR8 = RuleRef{Name: "R8", Doc: "exactly one reply write per command: on ever
 			c.Undecided("R8", "connection parameter of "+fnName(fn))
 			continue
 		}
-		var sel *ssa.Select
+		// where an iteration of the connection loop starts: the select that receives from the parser (in the handler
+		// itself, or in a receive helper the handler calls: recvOrDone(ctx, ch))
+		var sel ssa.Instruction
 		nWrites := 0
 		nWritesViaHelper := 0
 		for _, b := range fn.Blocks {
@@ -179,6 +272,41 @@ var rR8 = RuleRef{Name: "R8", Doc: "exactly one reply write per command: on ever
 			}
 		}
 		if sel == nil {
+			for _, b := range fn.Blocks {
+				for _, in := range b.Instrs {
+					call, ok := in.(*ssa.Call)
+					if !ok || sel != nil {
+						continue
+					}
+					cf := callee(call)
+					if cf == nil || !firstParty(cf) || len(cf.Blocks) == 0 {
+						continue
+					}
+					recvParsed := false
+					for _, a := range call.Call.Args {
+						if strings.Contains(a.Type().String(), "ParsedRes") {
+							if _, isChan := a.Type().Underlying().(*types.Chan); isChan {
+								recvParsed = true
+							}
+						}
+					}
+					if !recvParsed {
+						continue
+					}
+					for _, b2 := range cf.Blocks {
+						for _, in2 := range b2.Instrs {
+							if _, ok := in2.(*ssa.Select); ok {
+								sel = call
+							}
+							if u, ok := in2.(*ssa.UnOp); ok && u.Op == token.ARROW {
+								sel = call
+							}
+						}
+					}
+				}
+			}
+		}
+		if sel == nil {
 			c.Undecided("R8", "connection loop (select) of "+fnName(fn))
 			continue
 		}
@@ -186,7 +314,7 @@ var rR8 = RuleRef{Name: "R8", Doc: "exactly one reply write per command: on ever
 			if noReturnCall(in) {
 				return nil, true
 			}
-			if in == ssa.Instruction(sel) {
+			if in == sel {
 				return Set{"c0w0": true}, false
 			}
 			// a command is being executed once the path passes a dispatch point: the dispatcher call, the proposal
@@ -246,7 +374,7 @@ var rR8 = RuleRef{Name: "R8", Doc: "exactly one reply write per command: on ever
 				if cf := callee(call); cf != nil && firstParty(cf) && pkgRel(cf) == "server" && !isDispatcherParent(c, cf) {
 					if sum, cp := c.connWriteSummary(cf, 0); sum != nil {
 						for i, a := range call.Call.Args {
-							if i < len(cf.Params) && cf.Params[i] == cp && (a == ssa.Value(conn) || isConnLoad(a, conn)) {
+							if i < len(cf.Params) && cf.Params[i] == cp && (a == ssa.Value(conn) || isConnLoad(a, conn) || carriesConn(a, conn)) {
 								n := Set{}
 								for st := range s {
 									for k := range sum {
@@ -326,7 +454,7 @@ var rR8 = RuleRef{Name: "R8", Doc: "exactly one reply write per command: on ever
 	// reply helper (writeResult -> writeReply), never a go statement
 	replyHelper := map[*ssa.Function]bool{}
 	for _, fn := range c.P.allFuncs("server") {
-		if !isH[fn] && connParam(fn) != nil && fn.Parent() == nil {
+		if !isH[fn] && connBearer(fn) != nil && fn.Parent() == nil {
 			replyHelper[fn] = true
 		}
 	}
@@ -362,7 +490,7 @@ var rR8 = RuleRef{Name: "R8", Doc: "exactly one reply write per command: on ever
 		helperOK := replyHelper[fn]
 		for _, b := range fn.Blocks {
 			for _, in := range b.Instrs {
-				if isConnWrite(in, nil) && !(helperOK && isConnWrite(in, connParam(fn))) {
+				if isConnWrite(in, nil) && !(helperOK && isConnWrite(in, connBearer(fn))) {
 					others = append(others, c.pos(in.Pos())+" in "+fnName(fn))
 				}
 			}
